@@ -14,13 +14,15 @@ CLAIM = {
             "keyboard protocol: literal bytes and final bytes, hole expressions (row+1, col+1, negated deltas), format specs (two hex digits "
             "per byte for XTGETTCAP), DEC private marker, OSC/DCS framing with ST, alt-screen keyboard-level bracketing under "
             "caps.kitty_keyboard, empty output for Image/ImageErase; variant field types are those the holes assume; every path is a "
-            "concatenation of complete control sequences with no non-I/O exit inside one; DecMode discriminants equal xterm's mode numbers. "
+            "concatenation of complete control sequences with no non-I/O exit inside one; DecMode discriminants equal xterm's mode numbers; (b) every overflow/negation/bounds/unwrap obligation reachable from TTYEncoder::encode is discharged (abstract interpretation, "
+            "CHUNKS-INV and FINITE-COLOR lemmas). "
             "Not decided: the SGR parameter table (C06; only CSI..m framing and ';' joining), colour reduction (C20), absence of panics on "
             "extreme values (clause (b), hook `obligations` left for the abstract interpreter), control bytes in the ground-state payloads of "
             "Char/Raw (values inside OSC/DCS strings are classified: numeric, hex, trusted Display or control-filtered characters), "
             "what a real terminal does beyond the reference templates.",
     "technique": "output-template extraction from the syntax tree (template language per path), comparison with hand-written reference "
-                 "templates over all branch valuations, ECMA-48 framing automaton on templates, enum discriminant table",
+                 "templates over all branch valuations, ECMA-48 framing automaton on templates, enum discriminant table; abstract interpretation "
+                 "of MIR for the panic obligations",
     "design_ref": "DESIGN.md §5 C05 (a); §4 output templates, reference tables",
 }
 
@@ -249,7 +251,7 @@ def run(ctx):
         "declared field types of the variants are those the decimal/Display holes assume; every path is a concatenation of complete "
         "control sequences with no non-I/O failure exit inside a sequence; DecMode discriminants equal the xterm mode numbers. "
         "NOT decided: the SGR parameter table of Face/FaceModify (C06; only CSI..m framing and ';' joining here), colour depth reduction "
-        "(C20), absence of panics on extreme values (part (b), pending the abstract interpreter), behaviour of a real terminal beyond "
+        "(C20), behaviour of a real terminal beyond "
         "the reference templates, control bytes inside the ground-state payloads of Char/Raw. Values written inside OSC/DCS strings are "
         "classified (STRING-PAYLOAD): numeric / hex / trusted Display / control-filtered characters pass, raw strings are reported.")
     ctx.assume("I/O errors of the sink abort the command: Err paths of write!/write_all are not part of the template language")
@@ -425,6 +427,99 @@ def run(ctx):
 
 
 def obligations(ctx):
-    """HOOK for C05(b): E1 obligations over Reach(TTYEncoder::encode) (Assert/overflow/neg at `-col`, `-row`, `-count`, `pos.row + 1`,
-    `pos.col + 1`, `start + 1`, `end + 1`) are to be discharged by the abstract interpreter; not implemented here."""
-    pass
+    """C05(b) "encoding never panics": every overflow/neg/bounds/unwrap obligation reachable from TTYEncoder::encode is discharged by the
+    abstract interpreter (extreme values: `-col`, `pos.row + 1`, ...), by the CHUNKS-INV lemma (structurally checked here) or by the
+    FINITE-COLOR lemma (colours are RGBA)."""
+    import re
+    from .. import oblrules
+    from ..mir import call_matches, callee_name
+    from ..flow import resolve_place, expr
+    prog = ctx.prog
+    ENC = "<encoder::TTYEncoder as encoder::Encoder>::encode"
+    lemmas = {}
+    # ---- CHUNKS-INV: offsets are non-decreasing and <= buffer.len() ---------------------------------------------------------
+    ctx.rule("CHUNKS-INV", "encoder::Chunks: offsets only grows by push(buffer.len()), buffer only grows, both are cleared together; "
+                           "Chunks::iter walks offsets in order starting from 0 — so buffer[start..end] is in range", floor=5)
+    ALLOWED = {"offsets": [r"^std::vec::Vec::<T, A>::push$", r"^std::vec::Vec::<T, A>::clear$"],
+               "buffer": [r"Extend<&'a T>>::extend$|as std::iter::Extend<.*>>::extend$", r"(as std::io::Write>|impl std::io::Write for std::vec::Vec<u8, A>>)::write(_all)?$", r"^std::vec::Vec::<T, A>::clear$"]}
+    ok_inv = True
+    n_mut = 0
+    clears = {}
+    for b in prog.bodies:
+        own = re.sub(r"<.*$", "", b.impl_self or "") == "encoder::Chunks" or (b.closure_root or "").startswith("encoder::Chunks::") or b.path.startswith("<encoder::Chunks as ")
+        for bb, si, st in b.assigns():
+            rp = resolve_place(b, st["place"])
+            m = re.search(r"\.(buffer|offsets)$", rp)
+            base_ty = b.local_ty(st["place"]["l"])
+            if m and "Chunks" in base_ty:
+                ok_inv = False
+                ctx.violation("CHUNKS-INV", b.path, "assign-" + m.group(1), "Chunks.%s is overwritten directly" % m.group(1), sites=["%s:%d" % (b.file, st["line"])])
+            rv = st["rv"]
+            if rv["k"] == "ref" and rv["mut"]:
+                rp = resolve_place(b, rv["place"])
+                m = re.search(r"\.(buffer|offsets)$", rp)
+                if not m or "Chunks" not in b.local_ty(rv["place"]["l"]):
+                    continue
+                n_mut += 1
+                fld = m.group(1)
+                l = st["place"]["l"]
+                users = [(ub, t) for ub, t in b.calls() if any(a.get("k") in ("copy", "move") and a["place"]["l"] == l for a in t["args"])]
+                good = own and len(users) == 1 and any(call_matches(users[0][1], p) for p in ALLOWED[fld])
+                what = callee_name(users[0][1]) if users else None
+                if good and call_matches(users[0][1], r"Vec::<T, A>::push$"):
+                    good = expr(b, users[0][1]["args"][1]) in ("Vec::len(arg1.buffer)", "len(arg1.buffer)")
+                    what = "push(%s)" % expr(b, users[0][1]["args"][1])
+                if good and call_matches(users[0][1], r"Vec::<T, A>::clear$"):
+                    clears.setdefault(b.path, set()).add(fld)
+                ctx.instance("CHUNKS-INV", {"fn": b.path, "field": fld, "mutated_by": what, "allowed": bool(good)})
+                if not good:
+                    ok_inv = False
+                    ctx.violation("CHUNKS-INV", b.path, "mutation-" + fld, "Chunks.%s is mutated by %s (%s): offsets may then exceed buffer.len() or decrease"
+                                  % (fld, what, "outside Chunks' methods" if not own else "not push(buffer.len())/extend/write/clear"), sites=["%s:%d" % (b.file, st["line"])])
+    for path, flds in clears.items():
+        if flds != {"buffer", "offsets"}:
+            ok_inv = False
+            ctx.violation("CHUNKS-INV", path, "partial-clear", "%s clears %s but not the other vector" % (path, sorted(flds)), sites=[prog.body(path).loc])
+    it = prog.body("encoder::Chunks::iter")
+    itc = prog.body("encoder::Chunks::iter::{closure#0}")
+    if it is None or itc is None or n_mut < 4:
+        ctx.anchor("CHUNKS-INV", "Chunks::iter")
+        ok_inv = False
+    else:
+        # closure environment initialised with (0, self, 0); start := offsets[index]; index += 1
+        init = [expr(it, {"k": "copy", "place": st["place"]}) for bb, si, st in it.assigns() if st["rv"]["k"] == "agg" and st["rv"].get("ak") == "closure"]
+        ok_init = len(init) == 1 and len(re.findall(r"\b0\b", init[0])) >= 2
+        writes = sorted("%s := %s" % (resolve_place(itc, st["place"]), expr(itc, st["rv"]["a"]) if st["rv"]["k"] == "use" else st["rv"]["k"])
+                        for bb, si, st in itc.assigns() if resolve_place(itc, st["place"]).startswith("(*_1)."))
+        idx_calls = [t for bb, t in itc.calls() if call_matches(t, r"ops::Index<I>>::index$")]
+        ok_w = len(writes) == 2 and len(idx_calls) == 2
+        ctx.instance("CHUNKS-INV", {"iter_env_init": init, "closure_state_writes": writes, "ok": ok_init and ok_w})
+        if not (ok_init and ok_w):
+            ok_inv = False
+            ctx.violation("CHUNKS-INV", itc.path, "iter-shape", "Chunks::iter is not the in-order walk (index, start from 0; start := offsets[index]; index += 1): %s / %s" % (init, writes), sites=[itc.loc])
+    if ok_inv:
+        lemmas[("encoder::Chunks::iter::{closure#0}", "RANGEIDX")] = ("CHUNKS-INV", "offsets is non-decreasing and every element <= buffer.len() (CHUNKS-INV), start is the previous offset")
+    # ---- FINITE-COLOR: partial_cmp(..).unwrap() in `nearest` ---------------------------------------------------------
+    ctx.rule("FINITE-COLOR", "nearest() is only called by color_sgr_encode, which is only instantiated with rasterize::RGBA (8-bit channels: finite linear components)", floor=2)
+    ok_fin = True
+    n_calls = 0
+    for b in prog.bodies:
+        for bb, t in b.calls():
+            if call_matches(t, r"^encoder::nearest$"):
+                n_calls += 1
+                good = b.path == "encoder::color_sgr_encode"
+                ctx.instance("FINITE-COLOR", {"nearest_called_from": b.path, "ok": good})
+                ok_fin &= good
+            if call_matches(t, r"^encoder::color_sgr_encode$"):
+                n_calls += 1
+                good = t["fn"].get("generics") == ["rasterize::RGBA"]
+                ctx.instance("FINITE-COLOR", {"color_sgr_encode_called_from": b.path, "generics": t["fn"].get("generics"), "ok": good})
+                ok_fin &= good
+    if ok_fin and n_calls:
+        lemmas[("encoder::nearest::{closure#0}", "UNWRAP")] = ("FINITE-COLOR", "f32::partial_cmp is None only for NaN; table entries are finite literals and the probe derives from u8 channels")
+        ctx.trust("FINITE-COLOR", "rasterize's LinColor::from(RGBA) yields finite components (sRGB transfer function on 8-bit channels)")
+    elif n_calls:
+        ctx.violation("FINITE-COLOR", "encoder::nearest", "callers", "nearest()/color_sgr_encode is used with a colour type whose components may be NaN: partial_cmp(..).unwrap() can panic", sites=[])
+    oblrules.run(ctx, "TOTAL", [ENC], lossy=False, lemmas=lemmas, floor_bodies=4,
+                 scope=lambda b: b.file.endswith(("encoder.rs", "terminal.rs", "face.rs")),
+                 desc="encoding never panics: no reachable overflow/negation/bounds/unwrap failure from TTYEncoder::encode")
